@@ -203,6 +203,12 @@ def _rand_measured_circuit(rng, version):
     keys = rng.sample(KEYS, 3)
     for step in range(rng.randrange(3, 9)):
         r = rng.random()
+        if r < 0.08 and measured:
+            # the same key measured again (the register is overwritten; Cirq keeps both records and conditions test the latest by default)
+            key = rng.choice(list(measured))
+            mq = rng.sample(qs, measured[key])
+            ops.append(cirq.measure(*mq, key=key))
+            continue
         if r < 0.3 and len(measured) < len(keys):
             key = next(k for k in keys if k not in measured)
             mq = rng.sample(qs, rng.choice([1, 1, 2]) if n >= 2 else 1)
@@ -225,6 +231,9 @@ def _rand_measured_circuit(rng, version):
                 if version == "3.0" and rng.random() < 0.3:
                     others = [k for k in measured if k != key and measured[k] == 1]
                     conds += others[:1]
+                if rng.random() < 0.2:
+                    # an explicit record index: -1 is the default (latest); an earlier record cannot be expressed once the register is overwritten
+                    conds = [cirq.KeyCondition(cirq.MeasurementKey(key), index=rng.choice([-1, 0, 0, -2]))]
                 op = cirq.If(conds if len(conds) > 1 else conds[0], op) if rng.random() < 0.25 else op.with_classical_controls(*conds)
             elif re.fullmatch(r"[a-z][a-zA-Z0-9_]*", key):
                 val = rng.randrange(0, 2 ** measured[key])
@@ -320,7 +329,7 @@ def standin_measure_control(tier, seed):
             break
     return dict(function=F + ":QasmOutput[measurements and classical control]", case="measure-control",
                 bound=f"{n_cases} seeded circuits: 2-3 qubits, <= 8 operations, <= 3 measurement keys (valid and invalid identifiers, 1-2 bits, invert masks), "
-                      f"key / sympy-equality conditions, resets; exact branch enumeration on both sides ({refused} circuits refused by to_qasm with ValueError)",
+                      f"re-measured keys, key (also with explicit record index) / sympy-equality conditions, resets; exact branch enumeration on both sides ({refused} circuits refused by to_qasm with ValueError)",
                 cases=cases, distinct=len(distinct), failures=len(fails), exhaustive=False, _fails=_uniq(fails))
 standin_measure_control.prop = "C19"
 
@@ -342,12 +351,27 @@ def standin_registers(tier, seed):
                             r = compare_measured(c, list(qs), version)
                             if r is not None:
                                 fails.append(dict(args=dict(circuit=repr(c), version=version), failed=r[0], clause=r[1]))
+    # OpenQASM has only qubits: a circuit on qudits must be refused, not exported with the qubit statements of the same gate classes
+    qt, qb2 = cirq.LineQid(0, dimension=3), cirq.LineQubit(1)
+    for ops_ in ([cirq.XPowGate(dimension=3).on(qt)], [cirq.ZPowGate(dimension=3, exponent=0.5).on(qt)], [cirq.IdentityGate(qid_shape=(3,)).on(qt)], [cirq.X(qb2), cirq.XPowGate(dimension=3).on(qt)],
+                 [cirq.ResetChannel(dimension=3).on(qt)], [cirq.MatrixGate(np.roll(np.eye(3), 1, axis=0), qid_shape=(3,)).on(qt)], [cirq.X(qb2).controlled_by(qt, control_values=[2])]):
+        for version in ("2.0", "3.0"):
+            cases += 1
+            c = cirq.Circuit(ops_)
+            try:
+                text = c.to_qasm(version=version)
+            except ValueError:
+                continue
+            except Exception as ex:
+                fails.append(dict(args=dict(circuit=repr(c), version=version), failed="to_qasm-raised", clause=f"to_qasm raised {ex!r} on a qudit circuit (a ValueError refusal is expected)"))
+                continue
+            fails.append(dict(args=dict(circuit=repr(c), version=version, qasm=text), failed="qudit-exported", clause="a circuit on qudits was exported as an OpenQASM program on qubits (a different computation); it must be refused"))
     return dict(function="cirq-core/cirq/ops/measurement_gate.py:MeasurementGate._qasm_ + QasmOutput._generate_cregs", case="registers",
-                bound="all measurements of 1..3 of <= 3 qubits in every order, every invert mask, a valid and an invalid key, both versions", cases=cases,
+                bound="all measurements of 1..3 of <= 3 qubits in every order, every invert mask, a valid and an invalid key, both versions; 7 qudit circuits must be refused", cases=cases,
                 distinct=cases, failures=len(fails), exhaustive=True, _fails=_uniq(fails))
 standin_registers.prop = "C19"
 
 STANDINS = [standin_unitary_circuits, standin_measure_control, standin_registers]
-NOT_COVERED = ["a measurement key measured more than once (OpenQASM overwrites the register; Cirq keeps every record)", "qudits (no OpenQASM form)",
+NOT_COVERED = [
                "header text and comment placement"]
 EXPLANATION = "whole-circuit export (decomposition fallbacks, numeric matrix gates, registers, measurements, classical control) is a bounded stand-in. "
